@@ -330,3 +330,14 @@ func (t *HToken) TxScript2(_ *types.Sender, a string, b string) error { return n
 
 // TxPlain is a batched method without a sender: not signed, no nonce.
 func (t *HToken) TxPlain(script string) (string, error) { return t.runScript(script) }
+
+// QuerySym reports the symbol of the configuration in force.
+func (t *HToken) QuerySym() (string, error) { return t.ContractConfig().GetSymbol(), nil }
+
+// HBase is a contract built on the base contract alone (no token section).
+type HBase struct {
+	core.BaseContract
+}
+
+func (b *HBase) QuerySym() (string, error) { return b.ContractConfig().GetSymbol(), nil }
+func (b *HBase) GetID() string             { return "hbase" }
